@@ -120,6 +120,8 @@ type rWorld struct {
 	srcInc     []int
 	srcLastAck []int64
 	srcHasAck  []bool
+	incLastAck []int64 // last acknowledgement of the CURRENT incarnation of the source stream
+	incHasAck  []bool
 	tgt        []*tgtInc   // current incarnation per target (nil if never opened)
 	tgtHist    [][]*tgtInc // all incarnations
 	wf         []string    // workflow id owned by target t
@@ -170,6 +172,8 @@ func newRWorld(t *testing.T, ns, nt int) *rWorld {
 	w.srcInc = make([]int, ns)
 	w.srcLastAck = make([]int64, ns)
 	w.srcHasAck = make([]bool, ns)
+	w.incLastAck = make([]int64, ns)
+	w.incHasAck = make([]bool, ns)
 	w.tgt = make([]*tgtInc, nt)
 	w.tgtHist = make([][]*tgtInc, nt)
 	w.received = make([][]*rTask, ns)
@@ -277,6 +281,7 @@ func (w *rWorld) openSrc(s int) {
 	w.srcCli[s] = w.toX.Stream(fmt.Sprintf("1:%d", s+1))
 	w.srcSeen[s] = 0
 	w.srcInc[s]++
+	w.incHasAck[s] = false
 }
 
 func (w *rWorld) openTgt(t int) {
@@ -558,11 +563,16 @@ func (w *rWorld) firstReceiptInc(s int, rt *rTask) int {
 }
 
 func (w *rWorld) monitorAck(s int, a int64) {
-	// C03 safety
-	if w.srcHasAck[s] && a < w.srcLastAck[s] && !w.faults {
-		w.violation("C03", fmt.Sprintf("ack to source %d decreased: %d after %d", s, a, w.srcLastAck[s]), nil)
+	// C03 safety: the acknowledgements on ONE source-shard stream (one incarnation of the receiver) never decrease — whatever
+	// the target streams do meanwhile (C03F_incarnation_monotone); a restarted source stream starts a new sequence
+	// (After a RESTART of the source stream the unchanged code can send a stale, too high acknowledgement first and a clamped
+	// one afterwards — a consequence of the recorded finding C04-source-restart-forgets-targets, kernel-checked as
+	// C03F_refuted_after_source_restart — so the check covers source streams that have never been broken.)
+	if w.incHasAck[s] && a < w.incLastAck[s] && w.srcInc[s] == 1 {
+		w.violation("C03", fmt.Sprintf("ack to source %d decreased: %d after %d (its stream has never been broken; target faults so far: %v)", s, a, w.incLastAck[s], w.faults), nil)
 	}
-	if a > w.lastHigh[s] {
+	w.incHasAck[s], w.incLastAck[s] = true, a
+	if a > w.lastHigh[s] && w.srcInc[s] == 1 {
 		w.violation("C03", fmt.Sprintf("ack %d to source %d exceeds the last exclusive high %d it sent", a, s, w.lastHigh[s]), nil)
 	}
 	// C01 / C04: every received task below the ack must be confirmed. A violation that falls under a recorded finding is
